@@ -2,7 +2,7 @@
  * other.  Calls that may abort are first tried in a forked child; "die" is reported and the call skipped.
  * clock_gettime is interposed: every call returns a strictly increasing counter (10 ns steps).
  * Script lines:  proc <loom> <pid> | thread <tid> <cpuindex> | type <t> <flags> <hex|NULL|-> | label <t> <v> <hex|NULL|->
- *                push <t> <v> | pop <t> <v> | set <t> <v> | pause | resume | endthread | endproc */
+ *                push <t> <v> | pop <t> <v> | set <t> <v> | pause | resume | cool | warm | endthread | endproc */
 #include <stdio.h>
 #include <stdlib.h>
 #include <string.h>
@@ -95,6 +95,8 @@ static void *run_thread(void *arg)
 		else if (sscanf(line, "set %lld %lld", &t, &v) == 2) { c.kind = 4; c.type = (int32_t) t; c.value = v; have = 1; }
 		else if (strncmp(line, "pause", 5) == 0) { emit("OHp", NULL, 0); printf("ok\n"); }
 		else if (strncmp(line, "resume", 6) == 0) { emit("OHr", NULL, 0); printf("ok\n"); }
+		else if (strncmp(line, "cool", 4) == 0) { emit("OHc", NULL, 0); printf("ok\n"); }
+		else if (strncmp(line, "warm", 4) == 0) { emit("OHw", NULL, 0); printf("ok\n"); }
 		else if (strncmp(line, "endthread", 9) == 0) { emit("OHe", NULL, 0); ovni_flush(); ovni_thread_free(); printf("ok\n"); }
 		else printf("?\n");
 		if (have) {
